@@ -101,7 +101,7 @@ Example C05_nonvacuous_deny :
 Proof. vm_compute. reflexivity. Qed.
 Example C05_nonvacuous_request :
   let boom := ["Boom"; "Exception"; "BaseException"] in
-  let ev := {| e_conn := 1; e_kind := ERequest {| q_oneway := false; q_callback := false |};
+  let ev := {| e_conn := 1; e_kind := ERequest {| q_oneway := false; q_callback := false; q_stream := false |};
                e_script := [ {| f_fn := FHandleRequest; f_site := asite tables FHandleRequest KMethod 1; f_recv := false; f_exc := boom |};
                              {| f_fn := FSendExc; f_site := asite tables FSendExc KDumps 0; f_recv := false; f_exc := mro tables "TypeError" |};
                              {| f_fn := FSendExc; f_site := asite tables FSendExc KSend 0; f_recv := false;
